@@ -10,7 +10,8 @@
 //!
 //! modes:
 //!   replay --in paths.ndjson --out trace.ndjson [--probe 1]   paths printed by MC_Timelock (one per
-//!          distinct state); with --probe every buffer operation of the model is also tried in every state
+//!          distinct state); with --probe every buffer operation of the model is also tried in every state;
+//!          --variant v executes the model's shape classes 1..3 as the concrete shapes 10 v + class
 //!   random --seed S --n N --len L --out trace.ndjson
 use anchor_lang::{
     prelude::Pubkey,
@@ -80,13 +81,27 @@ struct World {
     names: HashMap<Pubkey, String>,
 }
 
-/// the instruction shapes of the model: (metas as (account, signer, writable), data)
+/// the instruction shapes: id = 10 * variant + class (class 1: the wallet signs, 2: nobody signs,
+/// 3: another account is flagged signer and the buffer must be refused) -> (metas as (account, signer,
+/// writable), data).  The variants cover all four (signer, writable) combinations on the wallet and the
+/// (non-signer) combinations on other accounts, the wallet listed several times with different flags,
+/// no accounts at all and empty data.
 fn shape(w: &World, sh: u8) -> (Vec<(Pubkey, bool, bool)>, Vec<u8>) {
     let (wk, xk, yk) = (w.wallet.key(), w.x.key(), w.y.key());
     match sh {
         1 => (vec![(wk, true, true), (xk, false, false), (yk, false, true)], vec![7, 1, 255]),
         2 => (vec![(xk, false, false), (wk, false, true), (yk, false, false)], vec![]),
-        _ => (vec![(wk, true, false), (xk, true, true)], vec![9]), // a second signer: must be rejected
+        3 => (vec![(wk, true, false), (xk, true, true)], vec![9]),
+        11 => (vec![(wk, true, false), (xk, false, true)], vec![1]), // read-only signer
+        12 => (vec![(wk, false, false), (yk, false, false)], vec![0]),
+        13 => (vec![(yk, true, false)], vec![3]),
+        21 => (vec![(wk, true, false), (wk, false, true), (wk, true, true), (xk, false, false)], vec![2, 2]),
+        22 => (vec![], vec![5]),
+        23 => (vec![(wk, true, true), (yk, true, true)], vec![]),
+        31 => (vec![(xk, false, true), (wk, true, false), (yk, false, false), (wk, true, false)], vec![]),
+        32 => (vec![], vec![]),
+        33 => (vec![(xk, true, false), (wk, false, false)], vec![4]),
+        _ => panic!("unknown shape {sh}"),
     }
 }
 
@@ -433,6 +448,14 @@ fn replay(args: &Args) -> i32 {
     let nb = rows[0]["nb"].as_u64().unwrap() as usize;
     let na = rows[0]["na"].as_u64().unwrap() as usize;
     let probe = args.num("probe", 0) == 1;
+    // the model's shape classes 1..3 are executed as shape 10 * variant + class
+    let variant = args.num("variant", 0) as i64;
+    let conc = |mut c: Call| {
+        if c.op == "create" {
+            c.x += 10 * variant;
+        }
+        c
+    };
     // one world per initial delay (first path element), snapshots per path
     let mut worlds: HashMap<i64, World> = HashMap::new();
     let mut snaps: HashMap<String, Snap> = HashMap::new();
@@ -447,7 +470,7 @@ fn replay(args: &Args) -> i32 {
         let parent = Value::Array(path[..path.len() - 1].to_vec()).to_string();
         let s = snaps.get(&parent).unwrap_or_else(|| panic!("parent path missing: {parent}")).clone();
         w.restore(&s);
-        exec_and_log(w, &call_from_json(&path[path.len() - 1]), path.len() == 2, &mut sink);
+        exec_and_log(w, &conc(call_from_json(&path[path.len() - 1])), path.len() == 2, &mut sink);
         let here = w.snapshot();
         if probe {
             // in every distinct state: every buffer operation of the model (most of them must fail)
@@ -463,7 +486,7 @@ fn replay(args: &Args) -> i32 {
                 calls.push(Call { op: "execute".into(), b, x: 0 });
             }
             for c in calls {
-                exec_and_log(w, &c, true, &mut sink);
+                exec_and_log(w, &conc(c), true, &mut sink);
                 w.restore(&here);
             }
         }
@@ -486,7 +509,7 @@ fn random(args: &Args) -> i32 {
             let b = rng.range(1, nb as i64) as usize;
             let a = rng.range(1, na as i64);
             let c = match rng.below(16) {
-                0..=2 => Call { op: "create".into(), b, x: *rng.pick(&[1i64, 1, 2, 2, 3]) },
+                0..=2 => Call { op: "create".into(), b, x: *rng.pick(&[1i64, 2, 3, 11, 11, 12, 13, 21, 21, 22, 23, 31, 31, 32, 33]) },
                 3..=5 => Call { op: "approve".into(), b, x: a },
                 6 => Call { op: "cancel".into(), b, x: 0 },
                 7..=9 => Call { op: "execute".into(), b, x: 0 },
